@@ -213,10 +213,14 @@ pub fn check_moov(o: &mut Outcome, d: &[u8], tree: &[Node], m: &Movie, ctx: &str
                     o.fail("hvcC", format!("hvcC.array_reserved.{}", ctx), "hvcC array reserved bit set");
                 }
             }
-            ConfigRecord::Av1 { raw4, .. } => {
+            ConfigRecord::Av1 { raw4, config_obus } => {
                 let delay_present = raw4[3] & 0x10 != 0;
                 if raw4[0] != 0x81 || raw4[3] & 0xe0 != 0 || (!delay_present && raw4[3] & 0x0f != 0) {
                     o.fail("av1C", format!("av1C.layout.{}", ctx), format!("av1C header {}", hex(raw4, 4)));
+                }
+                // configOBUs: complete OBUs that tile the rest of the record exactly, the first one a sequence header
+                if let Err(why) = tile_obus(config_obus) {
+                    o.fail("av1C", format!("av1C.config_obus_layout.{}", ctx), format!("av1C configOBUs {}: {}", hex(config_obus, 24), why));
                 }
             }
             ConfigRecord::Vp9Raw { payload } => {
@@ -269,6 +273,59 @@ pub fn check_moov(o: &mut Outcome, d: &[u8], tree: &[Node], m: &Movie, ctx: &str
             o.fail("trex", format!("trex.layout.{}", ctx), format!("trex {:?}", t));
         }
     }
+}
+
+/// Strict walk over an OBU sequence (AV1 spec 5.3): forbidden bit 0, header (+ extension byte), leb128 size that fits;
+/// an OBU without a size field runs to the end.  The first OBU must be a sequence header (type 1).
+fn tile_obus(d: &[u8]) -> Result<(), String> {
+    let mut p = 0usize;
+    let mut first = true;
+    while p < d.len() {
+        let h = d[p];
+        if h & 0x80 != 0 {
+            return Err(format!("forbidden bit set in the OBU header at {}", p));
+        }
+        let typ = (h >> 3) & 15;
+        if first && typ != 1 {
+            return Err(format!("first OBU has type {} (expected the sequence header, 1)", typ));
+        }
+        first = false;
+        let mut q = p + 1;
+        if h & 4 != 0 {
+            q += 1;
+        }
+        if h & 2 == 0 {
+            if q > d.len() {
+                return Err("OBU header runs past the end".into());
+            }
+            return Ok(());
+        }
+        let mut size: u64 = 0;
+        let mut done = false;
+        for i in 0..8 {
+            let b = match d.get(q) {
+                Some(b) => *b,
+                None => return Err("leb128 size runs past the end".into()),
+            };
+            q += 1;
+            size |= ((b & 0x7f) as u64) << (7 * i);
+            if b & 0x80 == 0 {
+                done = true;
+                break;
+            }
+        }
+        if !done {
+            return Err("leb128 size longer than 8 bytes".into());
+        }
+        if q as u64 + size > d.len() as u64 {
+            return Err(format!("OBU at {} declares {} payload bytes but only {} remain", p, size, d.len() - q.min(d.len())));
+        }
+        p = q + size as usize;
+    }
+    if first {
+        return Err("empty".into());
+    }
+    Ok(())
 }
 
 pub fn eval_prog(c: &ValidCase) -> Outcome {
